@@ -42,7 +42,7 @@ def proj(v):
     return {"t": "host", "d": type(v).__name__}
 
 
-def run_source(api, src, time_limit=TIME_LIMIT_STEPS, cap=400000):
+def run_source(api, src, time_limit=TIME_LIMIT_STEPS, cap=400000, wall=30.0):
     ctx = api.new_context(time_limit=time_limit)
     log = []
 
@@ -54,7 +54,7 @@ def run_source(api, src, time_limit=TIME_LIMIT_STEPS, cap=400000):
     ctx.set("log", host_log)
     box = ctx._raw_box
     del box[:]
-    out = api.run(lambda: ctx.eval(src), wall=30.0, cap=cap, tick=1.0)
+    out = api.run(lambda: ctx.eval(src), wall=wall, cap=cap, tick=1.0)
     if out["o"] == "value":
         out.pop("pv", None)
         if not box:
@@ -68,7 +68,7 @@ def run_source(api, src, time_limit=TIME_LIMIT_STEPS, cap=400000):
 
 def driver(case, api):
     src, pos = R.render(case["prog"], case.get("dl", 0), case.get("dc", 0))
-    log, out = run_source(api, src)
+    log, out = run_source(api, src, wall=case.get("wall", 30.0))
     res = {"id": case["id"], "log": log, "out": out,
            "pos": [[int(n)] + list(lc) for n, lc in sorted(pos.items(), key=lambda kv: int(kv[0]))]}
     if case.get("want_src"):
